@@ -318,10 +318,10 @@ func (t *Transport) RoundTrip(req *http.Request) (*http.Response, error) {
 	}
 	_ = coll
 	_ = name
+	arrive := t.C.Log.tick() // arrival is stamped before any gate holds the request
 	if g := t.Ctx.Gate; g != nil {
 		g("kube", req.Method, key)
 	}
-	arrive := t.C.Log.tick()
 
 	t.Ctx.mu.Lock()
 	dead := t.Ctx.ext()
